@@ -1287,6 +1287,34 @@ impl<'c, 'a> Exec<'c, 'a> {
                         return None;
                     }
                 }
+                // the selecting consumers, with a comparator under which many items tie
+                if let Some(got) = self.sut.as_ref().unwrap().iter_select() {
+                    use adapters::sel_rank;
+                    let m = &self.model;
+                    let want = [
+                        m.iter().copied().max_by(|a, b| sel_rank(a).cmp(&sel_rank(b))),
+                        m.iter().copied().min_by(|a, b| sel_rank(a).cmp(&sel_rank(b))),
+                        m.iter().copied().max_by_key(sel_rank),
+                        m.iter().copied().min_by_key(sel_rank),
+                        m.iter().copied().rev().max_by(|a, b| sel_rank(a).cmp(&sel_rank(b))),
+                        m.iter().copied().rev().min_by(|a, b| sel_rank(a).cmp(&sel_rank(b))),
+                    ];
+                    self.ctx.checked();
+                    let same = got.iter().zip(want.iter()).all(|(g, w)| match (g, w) {
+                        // the type's own equality, and the same item (slot 0 is unique to an item)
+                        (Some(g), Some(w)) => (d.eq_items)(*g, *w) && g[0].to_bits() == w[0].to_bits(),
+                        (None, None) => true,
+                        _ => false,
+                    });
+                    if !same {
+                        self.ctx.fail(
+                            "trace:iterator-max-min",
+                            &format!("{}:max_by", d.name),
+                            format!("max_by, min_by, max_by_key, min_by_key, rev().max_by, rev().min_by over a rank with ties = {got:?}, a vector of the same colors gives {want:?}"),
+                        );
+                        return None;
+                    }
+                }
                 Some("ok")
             }
             Op::Get { i, past } => {
